@@ -77,3 +77,37 @@ package mqtt
 //@   requires len(f) >= 1 && validFilter(f)
 //@   loop 1 invariant 0 <= i && i <= len(f) && i <= len(splitOf(topic)) && forall(0, i, func(j int) bool { return f[j] != "#" && lvl(f[j], splitOf(topic)[j]) })
 //@   ensures[C14] result == specMatch(f, splitOf(topic))
+
+// ---- subscription bookkeeping (C08): the client's picture of the broker's subscription table ----
+
+//@ spec
+//@ // no two entries for the same filter: the list denotes a map filter -> QoS
+//@ func nodupTopics(d []Subscription, n int) bool {
+//@ 	return forall(0, n, func(i int) bool { return forall(0, i, func(j int) bool { return d[i].Topic != d[j].Topic }) })
+//@ }
+//@ end
+
+//@ func (subscriptions).applyTo
+//@   mode int
+//@   props C08
+//@   requires d != nil && !sameArray(*d, s)
+//@   assigns *d
+//@   let d0 []Subscription = *d
+//@   ensures[C08] appended: len(*d) == len(d0)+len(s) && forall(0, len(d0), func(i int) bool { return (*d)[i] == d0[i] }) &&
+//@        forall(0, len(s), func(i int) bool { return (*d)[len(d0)+i] == s[i] })
+//@   ensures[C08] nodup: nodupTopics(d0, len(d0)) ==> nodupTopics(*d, len(*d))
+
+//@ func (unsubscriptions).applyTo
+//@   mode int
+//@   props C08
+//@   requires d != nil
+//@   assigns *d; (*d)[*]
+//@   let d0 []Subscription = *d
+//@   let old ssnap[Subscription] = sliceSnap(*d)
+//@   loop 1 invariant 0 <= l && l <= len(d0) && sameSlice(*d, d0) && (nodupTopics(d0, len(d0)) ==> nodupTopics(*d, l) &&
+//@        forall(0, l, func(k int) bool { return forall(0, rangeindex+1, func(j int) bool { return (*d)[k].Topic != s[j] }) }))
+//@   loop 2 invariant 0 <= l && l <= len(d0) && sameSlice(*d, d0) && (nodupTopics(d0, len(d0)) ==> nodupTopics(*d, l) &&
+//@        forall(0, rangeindex+1, func(k int) bool { return (*d)[k].Topic != topic }))
+//@   ensures[C08] shrinks: len(*d) <= len(d0)
+//@   ensures[C08] removed: nodupTopics(d0, len(d0)) ==> forall(0, len(*d), func(k int) bool { return forall(0, len(s), func(j int) bool { return (*d)[k].Topic != s[j] }) })
+//@   ensures[C08] nodup: nodupTopics(d0, len(d0)) ==> nodupTopics(*d, len(*d))
